@@ -1,5 +1,6 @@
 import Driver.Util
 import Exetera.Model.ChunkedCopy
+import Exetera.Model.LegacyMapFix
 open Lean Exetera Exetera.ChunkedCopy
 namespace Driver.C12
 
@@ -25,6 +26,16 @@ def handle : Driver.Handler := fun op j =>
     let n := match f with | .plain d => d.length | .indexed i v => max i.length v.length
     let fuel := (j.getObjValAs? Nat "fuel").toOption.getD n
     pure <| Driver.outE outJson (chunkedCopy f cs fuel)
+  | "legacy_map_stream" => some do
+    -- `ordered_map_valid_stream_old`: the model output is the variant with NC12a repaired; the as-found variant is reported
+    -- next to it so that the code before the fix is recognised (and reported) instead of being called a disagreement
+    let src ← Driver.get? (List Int) j "src"
+    let m ← Driver.get? (List Int) j "map"
+    let inv ← Driver.get? Int j "inv"
+    let cs ← Driver.get? Nat j "cs"
+    let rep := Driver.outE Driver.ints (JoinOld.mapValidStreamOldR src m inv cs (0 : Int))
+    let asf := Driver.outE Driver.ints (JoinOld.mapValidStreamOld src m inv cs (0 : Int))
+    pure <| rep.setObjVal! "as_found" asf
   | _ => none
 
 end Driver.C12
